@@ -99,6 +99,12 @@ func (d *vrStopDB) Update(f func(tx walletdb.ReadWriteTx) error, reset func()) e
 	err := d.Backend.Update(f, reset)
 	if err == nil {
 		d.committed++
+		if d.limit >= 0 && d.committed >= d.limit {
+			// the stop takes effect right after the n-th commit:
+			// nothing that follows it (not even an upstream message
+			// sent before the next transaction) is observable
+			d.stopped.Store(true)
+		}
 		if d.onCommit != nil {
 			d.onCommit()
 		}
